@@ -987,7 +987,6 @@ Definition wf_op (se : sess) (o : op) : Prop :=
   | OFirst a _ => 0 <= fa_lwork a
   | ORefact a _ => 0 <= fa_lwork a /\
                    match s_fac se with Some f0 => fa_lwork a = f_lwork f0 /\ fa_work a = f_work f0 | None => True end
-  | OQuery _ _ _ restore => restore = true     (* the caller saves perm_r around the query: see query_clobbers_perm_r *)
   | _ => True
   end.
 
@@ -1130,8 +1129,7 @@ Proof.
     destruct HI as (I1 & I2 & I3 & I4 & I5 & I6). rewrite E1, E2, E3.
     split; [exact I1|split; [exact I2|split; [exact I3|split; [exact I4|split; [exact I5|]]]]].
     intros K. destruct (I6 K) as (J1 & J2 & J3 & J4 & J5 & J6).
-    split; [exact J1|split; [exact J2|split; [exact J3|split; [exact J4|split; [exact J5|]]]]].
-    simpl in W. subst restore. exact J6.
+    split; [exact J1|split; [exact J2|split; [exact J3|split; [exact J4|split; [exact J5|exact J6]]]]].
   - (* qspace *)
     destruct (s_fac se) as [f|] eqn:SF; [|simpl; split; [exact HI|exact Logic.I]].
     destruct (query_space s) as [t2 e] eqn:QS. simpl.
@@ -1201,20 +1199,17 @@ Lemma hist_example_runs :
   [RFactor r1 true 0; RFactor r2 false 0; RSolve r2 1 3 None; RQSpace 0; REstimate 7108; RSolve r2 0 6 None].
 Proof. vm_compute. reflexivity. Qed.
 
-(* the two defects the model exposes on the paths the property talks about *)
-
-(* (1) an lwork = -1 query is documented to have "no other side effects", but p?gstrf_thread_init fills perm_r with EMPTY
-       before p?gstrf_MemInit returns the estimate (thread_init.c:123 vs :149): the session still holds valid factors,
-       perm_r is gone *)
-Lemma query_clobbers_perm_r : exists s se a refact opid,
-  let se' := snd (fst (step true (s, se) (OQuery a refact opid false))) in
-  s_fac se' = s_fac se /\ s_fac se <> None /\ s_permr se = PRfrom 1 /\ s_permr se' = PRempty.
+(* an lwork = -1 query has "no other side effects": nothing the caller holds changes (since /repo 9b35ce7; before that
+   p?gstrf_thread_init filled perm_r with EMPTY ahead of the early return, findings/C08-query-clobbers-perm_r.md) *)
+Lemma query_readonly : forall ex s se a refact opid restore, snd (fst (step ex (s, se) (OQuery a refact opid restore))) = se.
 Proof.
-  exists pstate0, some_sess, (mkFA 4 8 1 3 0 1 2 1 1000 0 (-1) 0 8 20 16 (-50) (-50) (-30) 0 16 79), c_YES, 5.
-  vm_compute. repeat split; intros; discriminate.
+  intros ex s se a refact opid restore. unfold step.
+  destruct (gstrf s a refact _ _ _ true); try reflexivity. destruct se; reflexivity.
 Qed.
 
-(* (2) two sessions on one pattern and precision, each with its own user work space W1, W2: the refactorization of the
+(* a defect the model exposes on the paths the property talks about *)
+
+(* two sessions on one pattern and precision, each with its own user work space W1, W2: the refactorization of the
        first session carves the threads' work arrays out of W2 (stack.array is only set on the refact = NO path) *)
 Definition twin_fargs (vals work fresh usepr : Z) : fargs := mkFA 4 8 1 vals 0 1 2 1 1000 usepr 4096 work 8 20 16 (-50) (-50) (-30) 0 16 fresh.
 Lemma refact_twin_user_workspace_stale :
@@ -1229,13 +1224,16 @@ Fixpoint colmax (c : list (Z * Z)) (acc : Z) : Z :=
   match c with [] => acc | (_, m) :: r => colmax r (if acc <? m then m else acc) end.
 
 (* scan over a suffix c2 of the column c1 ++ c2, started at index |c1| *)
+Definition optr_ok (c : list (Z * Z)) (orow : Z) (o : option nat) : Prop :=
+  match o with Some k => (k < length c)%nat /\ nth_row c k = orow | None => True end.
+
 Lemma scan_inv : forall c2 c1 pm pp u orow op drow dg M P O D,
   scan c2 (length c1) pm pp u orow op drow dg = (M, P, O, D) ->
   M = colmax c2 pm /\
   ((pp < length (c1 ++ c2))%nat -> (P < length (c1 ++ c2))%nat) /\
   (c2 <> [] -> pp = length c1 -> (P < length (c1 ++ c2))%nat) /\
-  ((op < length (c1 ++ c2))%nat -> (O < length (c1 ++ c2))%nat) /\
-  (u = true -> (nth_row (c1 ++ c2) op = orow \/ In orow (map fst c2)) -> nth_row (c1 ++ c2) O = orow) /\
+  (optr_ok (c1 ++ c2) orow op -> optr_ok (c1 ++ c2) orow O) /\
+  (u = true -> (op <> None \/ In orow (map fst c2)) -> O <> None) /\
   (u = false -> O = op) /\
   (match dg with Some d => (d < length (c1 ++ c2))%nat | None => True end ->
    match D with Some d => (d < length (c1 ++ c2))%nat | None => True end).
@@ -1245,65 +1243,55 @@ Proof.
     + intros X; contradiction X; reflexivity.
     + intros _ [X|[]]; exact X.
   - cbn [scan] in H.
-    destruct (pm <? mag) eqn:EM.
-    + assert (L : length (c1 ++ [(row, mag)]) = S (length c1)) by (rewrite app_length; simpl; lia).
-      rewrite <- L in H.
-      apply IH in H. rewrite <- app_assoc in H. simpl in H.
-      destruct H as (H1 & H2 & H3 & H4 & H5 & H6 & H7).
-      assert (LL : (length c1 < length (c1 ++ (row, mag) :: r))%nat) by (rewrite app_length; simpl; lia).
-      cbn [colmax]. rewrite EM.
-      split; [exact H1|]. split; [intros _; apply H2; exact LL|]. split; [intros _ _; apply H2; exact LL|].
-      split.
-      { intros X. apply H4. destruct (u && (row =? orow)); [exact LL|exact X]. }
-      split.
-      { intros U X. apply H5; [exact U|]. destruct (u && (row =? orow)) eqn:E.
-        - left. apply andb_true_iff in E. destruct E as [_ E]. apply Z.eqb_eq in E.
-          unfold nth_row. rewrite app_nth2 by lia. rewrite Nat.sub_diag. simpl. exact E.
-        - destruct X as [X|[X|X]]; [left; exact X| |right; exact X].
-          simpl in X. subst row. rewrite U, Z.eqb_refl in E. discriminate E. }
-      split.
-      { intros U. rewrite U in H6. simpl in H6. apply H6. reflexivity. }
+    assert (L : length (c1 ++ [(row, mag)]) = S (length c1)) by (rewrite app_length; simpl; lia).
+    assert (LL : (length c1 < length (c1 ++ (row, mag) :: r))%nat) by (rewrite app_length; simpl; lia).
+    assert (OP : forall opx, optr_ok (c1 ++ (row, mag) :: r) orow opx ->
+                 optr_ok (c1 ++ (row, mag) :: r) orow (if u && (row =? orow) then Some (length c1) else opx)).
+    { intros opx X. destruct (u && (row =? orow)) eqn:E; [|exact X].
+      apply andb_true_iff in E. destruct E as [_ E]. apply Z.eqb_eq in E. simpl. split; [exact LL|].
+      unfold nth_row. rewrite app_nth2 by lia. rewrite Nat.sub_diag. simpl. exact E. }
+    assert (ON : u = true -> (op <> None \/ In orow (map fst ((row, mag) :: r))) ->
+                 ((if u && (row =? orow) then Some (length c1) else op) <> None \/ In orow (map fst r))).
+    { intros U X. destruct (u && (row =? orow)) eqn:E; [left; discriminate|].
+      destruct X as [X|[X|X]]; [left; exact X| |right; exact X].
+      simpl in X. subst row. rewrite U, Z.eqb_refl in E. discriminate E. }
+    destruct (pm <? mag) eqn:EM; rewrite <- L in H; apply IH in H; rewrite <- app_assoc in H; simpl in H;
+      destruct H as (H1 & H2 & H3 & H4 & H5 & H6 & H7); cbn [colmax]; rewrite EM.
+    + split; [exact H1|]. split; [intros _; apply H2; exact LL|]. split; [intros _ _; apply H2; exact LL|].
+      split; [intros X; apply H4; apply OP; exact X|].
+      split; [intros U X; apply H5; [exact U|apply ON; assumption]|].
+      split; [intros U; rewrite U in H6; simpl in H6; apply H6; reflexivity|].
       intros X. apply H7. destruct (row =? drow); [exact LL|exact X].
-    + assert (L : length (c1 ++ [(row, mag)]) = S (length c1)) by (rewrite app_length; simpl; lia).
-      rewrite <- L in H.
-      apply IH in H. rewrite <- app_assoc in H. simpl in H.
-      destruct H as (H1 & H2 & H3 & H4 & H5 & H6 & H7).
-      assert (LL : (length c1 < length (c1 ++ (row, mag) :: r))%nat) by (rewrite app_length; simpl; lia).
-      cbn [colmax]. rewrite EM.
-      split; [exact H1|]. split; [exact H2|]. split; [intros _ E; apply H2; rewrite E; exact LL|].
-      split.
-      { intros X. apply H4. destruct (u && (row =? orow)); [exact LL|exact X]. }
-      split.
-      { intros U X. apply H5; [exact U|]. destruct (u && (row =? orow)) eqn:E.
-        - left. apply andb_true_iff in E. destruct E as [_ E]. apply Z.eqb_eq in E.
-          unfold nth_row. rewrite app_nth2 by lia. rewrite Nat.sub_diag. simpl. exact E.
-        - destruct X as [X|[X|X]]; [left; exact X| |right; exact X].
-          simpl in X. subst row. rewrite U, Z.eqb_refl in E. discriminate E. }
-      split.
-      { intros U. rewrite U in H6. simpl in H6. apply H6. reflexivity. }
+    + split; [exact H1|]. split; [exact H2|]. split; [intros _ E; apply H2; rewrite E; exact LL|].
+      split; [intros X; apply H4; apply OP; exact X|].
+      split; [intros U X; apply H5; [exact U|apply ON; assumption]|].
+      split; [intros U; rewrite U in H6; simpl in H6; apply H6; reflexivity|].
       intros X. apply H7. destruct (row =? drow); [exact LL|exact X].
 Qed.
 
 Lemma nth_row_in : forall c k, (k < length c)%nat -> In (nth_row c k) (map fst c).
 Proof. intros c k H. unfold nth_row. rewrite <- (map_nth fst). apply nth_In. rewrite map_length. exact H. Qed.
 
-(* the pivot row recorded is always one of the candidate rows, provided that -- when reuse is still on -- the old pivot row
-   is among them (it is, as long as the elimination has followed the old pivots on the same pattern) *)
+(* the pivot row recorded is always one of the candidate rows -- whatever perm_r was handed in (since /repo 62bc935 a
+   requested row that is not a candidate makes the routine give up reuse instead of recording it) *)
 Lemma pivotL_row_in : forall jcol c usepr oldrow diagrow un ud,
-  c <> [] -> (usepr = true -> In oldrow (map fst c)) ->
-  In (pv_row (pivotL jcol c usepr oldrow diagrow un ud)) (map fst c).
+  c <> [] -> In (pv_row (pivotL jcol c usepr oldrow diagrow un ud)) (map fst c).
 Proof.
-  intros jcol c usepr oldrow diagrow un ud NE HO. unfold pivotL.
-  destruct (scan c 0 0 0%nat usepr oldrow 0%nat diagrow None) as [[[M P] O] D] eqn:S.
-  pose proof (scan_inv c [] 0 0%nat usepr oldrow 0%nat diagrow None M P O D S) as (H1 & H2 & H3 & H4 & H5 & H6 & H7).
+  intros jcol c usepr oldrow diagrow un ud NE. unfold pivotL.
+  destruct (scan c 0 0 0%nat usepr oldrow None diagrow None) as [[[M P] O] D] eqn:S.
+  pose proof (scan_inv c [] 0 0%nat usepr oldrow None diagrow None M P O D S) as (H1 & H2 & H3 & H4 & H5 & H6 & H7).
   simpl in H2, H3, H4, H5, H7.
   assert (LP : (P < length c)%nat) by (apply H3; [exact NE|reflexivity]).
   assert (LD : match D with Some d => (d < length c)%nat | None => True end) by (apply H7; exact Logic.I).
-  destruct (M =? 0); [simpl; apply nth_row_in; exact LP|].
+  assert (LO : optr_ok c oldrow O) by (apply H4; exact Logic.I).
+  destruct (M =? 0).
+  { simpl. apply Nat.ltb_lt in LP. rewrite LP. apply nth_row_in. apply Nat.ltb_lt; exact LP. }
   destruct usepr.
-  - destruct (passes (nth_mag c O) M un ud); simpl.
-    + apply HO; reflexivity.
-    + destruct D as [d|]; [destruct (passes (nth_mag c d) M un ud); apply nth_row_in; assumption|apply nth_row_in; exact LP].
+  - destruct O as [o|].
+    + destruct LO as [LO RO]. destruct (passes (nth_mag c o) M un ud); simpl.
+      * rewrite <- RO. apply nth_row_in; exact LO.
+      * destruct D as [d|]; [destruct (passes (nth_mag c d) M un ud); apply nth_row_in; assumption|apply nth_row_in; exact LP].
+    + simpl. destruct D as [d|]; [destruct (passes (nth_mag c d) M un ud); apply nth_row_in; assumption|apply nth_row_in; exact LP].
   - simpl. destruct D as [d|]; [destruct (passes (nth_mag c d) M un ud); apply nth_row_in; assumption|apply nth_row_in; exact LP].
 Qed.
 
@@ -1326,16 +1314,14 @@ Lemma pivotL_keeps_old : forall jcol rows mg oldrow diagrow un ud,
 Proof.
   intros jcol rows mg oldrow diagrow un ud HI HP HM. unfold pivotL.
   set (c := map (fun r => (r, mg r)) rows) in *.
-  destruct (scan c 0 0 0%nat true oldrow 0%nat diagrow None) as [[[M P] O] D] eqn:S.
-  pose proof (scan_inv c [] 0 0%nat true oldrow 0%nat diagrow None M P O D S) as (H1 & H2 & H3 & H4 & H5 & H6 & H7).
+  destruct (scan c 0 0 0%nat true oldrow None diagrow None) as [[[M P] O] D] eqn:S.
+  pose proof (scan_inv c [] 0 0%nat true oldrow None diagrow None M P O D S) as (H1 & H2 & H3 & H4 & H5 & H6 & H7).
   simpl in H2, H3, H4, H5, H7. subst M.
   assert (IN : In oldrow (map fst c)) by (subst c; rewrite map_map; simpl; rewrite map_id; exact HI).
-  assert (NE : c <> []) by (intros X; rewrite X in IN; exact IN).
-  assert (RO : nth_row c O = oldrow) by (apply H5; [reflexivity|right; exact IN]).
-  assert (LO : (O < length c)%nat).
-  { destruct (Nat.lt_ge_cases O (length c)) as [X|X]; [exact X|].
-    assert (ZO : (0 < length c)%nat) by (destruct c; [contradiction NE; reflexivity|simpl; lia]). apply H4; exact ZO. }
-  assert (MO : nth_mag c O = mg oldrow).
+  assert (ON : O <> None) by (apply H5; [reflexivity|right; exact IN]).
+  assert (LO : optr_ok c oldrow O) by (apply H4; exact Logic.I).
+  destruct O as [o|]; [|contradiction ON; reflexivity]. destruct LO as [LO RO].
+  assert (MO : nth_mag c o = mg oldrow).
   { rewrite <- RO. unfold nth_mag, nth_row, c. rewrite nth_map_pair; [reflexivity|].
     unfold c in LO. rewrite map_length in LO. exact LO. }
   apply Z.eqb_neq in HM. rewrite HM. rewrite MO, HP. simpl. repeat split; reflexivity.
@@ -1372,37 +1358,24 @@ Section Elimination.
 
   Definition col (piv : list Z) (j : Z) : list (Z * Z) := map (fun r => (r, mag piv j r)) (cand piv j).
 
-  (* invariant of the loop: rows chosen so far are distinct; while reuse is on they are the old ones *)
+  (* rows chosen are distinct candidates, whatever perm_r was handed in *)
   Lemma eliminate_valid : forall m k piv usepr,
-    (k + m <= N)%nat ->
-    NoDup piv -> length piv = k -> (usepr = true -> piv = oldprefix oldpiv k) ->
+    (k + m <= N)%nat -> NoDup piv -> length piv = k ->
     NoDup (fst (eliminate m (Z.of_nat k) cand mag oldpiv diagrow un ud usepr piv)) /\
     length (fst (eliminate m (Z.of_nat k) cand mag oldpiv diagrow un ud usepr piv)) = (k + m)%nat.
   Proof.
-    induction m as [|m IH]; intros k piv usepr BND ND LEN OLD; [simpl; split; [exact ND|lia]|].
+    induction m as [|m IH]; intros k piv usepr BND ND LEN; [simpl; split; [exact ND|lia]|].
     cbn [eliminate]. fold (col piv (Z.of_nat k)).
     set (r := pivotL (Z.of_nat k) (col piv (Z.of_nat k)) usepr (oldpiv (Z.of_nat k)) (diagrow (Z.of_nat k)) un ud).
     assert (NE : col piv (Z.of_nat k) <> []).
     { unfold col. intros X. apply map_eq_nil in X. exact (cand_nonempty piv k ltac:(lia) LEN X). }
     assert (FST : map fst (col piv (Z.of_nat k)) = cand piv (Z.of_nat k)) by (unfold col; rewrite map_map; simpl; apply map_id).
-    assert (IN : In (pv_row r) (cand piv (Z.of_nat k))).
-    { rewrite <- FST. apply pivotL_row_in; [exact NE|]. intros U. rewrite FST. rewrite (OLD U). apply old_on_pattern. lia. }
+    assert (IN : In (pv_row r) (cand piv (Z.of_nat k))) by (rewrite <- FST; apply pivotL_row_in; exact NE).
     replace (Z.of_nat k + 1) with (Z.of_nat (S k)) by lia.
     destruct (IH (S k) (piv ++ [pv_row r]) (pv_usepr r)) as [A B].
     - lia.
     - apply NoDup_snoc; [exact ND|]. intros X. exact (cand_fresh _ _ _ IN X).
     - rewrite app_length; simpl; lia.
-    - intros U. rewrite oldprefix_S. f_equal.
-      + apply OLD. (* reuse was on before this column, otherwise pv_usepr would be false *)
-        destruct usepr; [reflexivity|]. exfalso. subst r. unfold pivotL in U.
-        destruct (scan _ _ _ _ _ _ _ _ _) as [[[M P] O] D]. destruct (M =? 0); simpl in U; discriminate U.
-      + f_equal. (* the row recorded is the old one *)
-        destruct usepr.
-        * subst r. unfold pivotL in *.
-          destruct (scan _ _ _ _ _ _ _ _ _) as [[[M P] O] D]. destruct (M =? 0); simpl in U; [discriminate U|].
-          destruct (passes (nth_mag (col piv (Z.of_nat k)) O) M un ud); simpl in *; [reflexivity|discriminate U].
-        * exfalso. subst r. unfold pivotL in U.
-          destruct (scan _ _ _ _ _ _ _ _ _) as [[[M P] O] D]. destruct (M =? 0); simpl in U; discriminate U.
     - split; [exact A|rewrite B; lia].
   Qed.
 
@@ -1455,12 +1428,10 @@ Lemma usepr_examples :
   eliminate 2 0 cand2 (fun _ j r => if (j =? 0) && (r =? 1) then 4 else 5) old2 (fun j => j) 1 1 true [] = ([0; 1], false).
 Proof. split; vm_compute; reflexivity. Qed.
 
-(* faithful to lines 95-128 of p?gstrf_pivotL.c: if the perm_r handed in does not come from this pattern (old row not among
-   the candidates) old_pivptr stays at nsupc, that entry is tested, and the OLD row is recorded: the result is not a permutation *)
-Lemma usepr_foreign_perm : exists piv, eliminate 2 0 cand2 (fun _ _ _ => 3) (fun _ => 7) (fun j => j) 1 1 true [] = (piv, true) /\ ~ NoDup piv.
-Proof.
-  exists [7; 7]. split; [vm_compute; reflexivity|]. intros H. inversion H as [|x l NI ND]; subst. apply NI. left; reflexivity.
-Qed.
+(* a perm_r that does not come from this pattern (requested row 7 is never a candidate): reuse is given up at once and an
+   ordinary pivot search produces a valid permutation (before /repo 62bc935 the requested row was recorded: [7; 7]) *)
+Lemma usepr_foreign_perm : eliminate 2 0 cand2 (fun _ _ _ => 3) (fun _ => 7) (fun j => j) 1 1 true [] = ([0; 1], false).
+Proof. vm_compute; reflexivity. Qed.
 
 (* ---- storage of a refactorization *)
 (* subscripts of L and the arrays of U: the limits Glu_alloc compares with are the sizes the session's storage was allocated
@@ -1500,15 +1471,15 @@ Proof. intros h s pat n annz dword; apply history_correct_inv; exact Logic.I. Qe
 Lemma usepr_semantics_all : forall (cand : list Z -> Z -> list Z) (mag : list Z -> Z -> Z -> Z) (oldpiv diagrow : Z -> Z) (un ud : Z) (N : nat),
   (forall piv j r, In r (cand piv j) -> ~ In r piv) ->
   (forall piv j, (j < N)%nat -> length piv = j -> cand piv (Z.of_nat j) <> []) ->
-  (forall j, (j < N)%nat -> In (oldpiv (Z.of_nat j)) (cand (oldprefix oldpiv j) (Z.of_nat j))) ->
-  ((forall j, (j < N)%nat -> old_passes cand mag oldpiv un ud j) ->
+  ((forall j, (j < N)%nat -> In (oldpiv (Z.of_nat j)) (cand (oldprefix oldpiv j) (Z.of_nat j))) ->
+   (forall j, (j < N)%nat -> old_passes cand mag oldpiv un ud j) ->
    eliminate N 0 cand mag oldpiv diagrow un ud true [] = (oldprefix oldpiv N, true)) /\
   (forall usepr, NoDup (fst (eliminate N 0 cand mag oldpiv diagrow un ud usepr [])) /\
                  length (fst (eliminate N 0 cand mag oldpiv diagrow un ud usepr [])) = N).
 Proof.
-  intros cand mag oldpiv diagrow un ud N H1 H2 H3. split.
-  - intros HP. apply (eliminate_keeps_old cand mag oldpiv diagrow un ud N H3 N 0%nat); [apply le_n|]. intros j Hj. apply HP. apply Hj.
-  - intros usepr. apply (eliminate_valid cand mag oldpiv diagrow un ud H1 N H2 H3 N 0%nat [] usepr); [apply le_n|constructor|reflexivity|reflexivity].
+  intros cand mag oldpiv diagrow un ud N H1 H2. split.
+  - intros H3 HP. apply (eliminate_keeps_old cand mag oldpiv diagrow un ud N H3 N 0%nat); [apply le_n|]. intros j Hj. apply HP. apply Hj.
+  - intros usepr. apply (eliminate_valid cand mag oldpiv diagrow un ud H1 N H2 N 0%nat [] usepr); [apply le_n|constructor|reflexivity].
 Qed.
 
 (* the hypotheses of usepr_semantics_all are satisfiable (dense 2 x 2 pattern) and both of its branches occur *)
